@@ -320,8 +320,30 @@ def run(prog, rep, tier, repo):
     solvers = [k for k in pdb.bodies if k.startswith('<%s as linalg::array::matrix::Solve<' % M)] + [
         M + '::inv', M + '::forward_substitution', M + '::backward_substitution', D + 'cholesky::cholesky_solve', D + 'lu::lu_solve',
         D + 'substitution::forward_substitution', D + 'substitution::backward_substitution', U + 'invert_matrix', U + 'solve_sys', U + 'solve']
+    # predicates that choose a route inside the slice solvers (a fast path for a matrix "that looks triangular", say) are part of the solver:
+    # an absolute threshold there sends c*A and A down different routes
+    nfixed = len(solvers)
+    work = []
+    for name in ('solve', 'solve_sys'):
+        f_ = prog.func(U + name)
+        if f_ is None:
+            continue
+        for gl in f_.guards().values():
+            for cn, _ in gl:
+                for z in subterms(cn):
+                    if tag(z) == 'call' and z[1] in pdb.bodies and pdb.bodies[z[1]].local_ty(0) == 'bool':
+                        work.append(z[1])
+    while work:
+        k_ = work.pop()
+        if k_ in solvers:
+            continue
+        solvers.append(k_)
+        g_ = prog.func(k_)
+        for c_ in (g_.calls() if g_ is not None else []):
+            if c_.path and c_.path in pdb.bodies and pdb.bodies[c_.path].local_ty(0) == 'bool':
+                work.append(c_.path)
     nsg = check_scale_guards(prog, rep, 'solver-threshold', sorted(solvers))
     rep.ok('solver-threshold', 'solver-threshold:scan', '%d solver bodies scanned, %d floating-point branches examined' % (len(solvers), nsg))
-    if len(solvers) < 16:
-        rep.viol('solver-threshold', 'solver-threshold:anchors', 'only %d of 16 solver bodies found' % len(solvers))
+    if nfixed < 16:
+        rep.viol('solver-threshold', 'solver-threshold:anchors', 'only %d of 16 solver bodies found' % nfixed)
     return {}
